@@ -36,7 +36,11 @@ SeedSchemas ==
     [BareStr EXCEPT !.pattern = Some(RxNeg)], [BareStr EXCEPT !.pattern = Some(RxNotLit)],
     [BareStr EXCEPT !.pattern = Some(RxMix)], BareBytes,
     R_TypedLen, BareList, [BareList EXCEPT !.min_len = Some(VInt(1)), !.max_len = Some(VInt(2))],
-    R_Dict, R_Any, AnyOf(<<SInt05, SStrAlpha, BareNone>>), SAlias("T", SInt05), R_Body, SOpen33, SPlus, SFlagGroup }
+    R_Dict, R_Any, AnyOf(<<SInt05, SStrAlpha, BareNone>>), SAlias("T", SInt05), R_Body, SOpen33, SPlus, SFlagGroup,
+    \* an alphabet together with a substring whose letters it lacks (the DSL accepts the pair)
+    [BareStr EXCEPT !.alphabet = Some(VStr(<<97, 98>>)), !.substr = Some(VStr(<<120, 121, 122>>)), !.min_len = Some(VInt(6))],
+    \* the less used types, pinned
+    SBytesA, SDate0, TypedList(SDatetime0), [TypedList(BareBytes) EXCEPT !.len = Some(VInt(2))] }
 
 RECURSIVE RxReadsEnv(_)
 RxReadsEnv(x) ==
